@@ -8,6 +8,8 @@ import (
 	"os"
 	"path/filepath"
 	"sort"
+	"sync/atomic"
+	"time"
 )
 
 // Violation is a concrete input on which the implementation breaks a property
@@ -150,6 +152,46 @@ func (c *Ctx) Close() {
 	}
 }
 
+// A watchdog for calls into the implementation that may never return (a lookup on a
+// mis-initialised instance can loop forever): WatchStart before the call, WatchEnd after it.
+// When a watched call is still running after 90 s the finding is recorded with its input, the
+// evidence is written and the process exits (the stuck goroutine cannot be stopped).
+type watch struct {
+	since  time.Time
+	what   string
+	replay func() interface{}
+}
+
+var curWatch atomic.Value
+
+func WatchStart(what string, replay func() interface{}) {
+	curWatch.Store(&watch{time.Now(), what, replay})
+}
+func WatchEnd() { curWatch.Store((*watch)(nil)) }
+
+func startWatchdog(c *Ctx) {
+	go func() {
+		for {
+			time.Sleep(2 * time.Second)
+			w, _ := curWatch.Load().(*watch)
+			if w == nil || time.Since(w.since) < 90*time.Second {
+				continue
+			}
+			var rp interface{}
+			func() {
+				defer func() { recover() }()
+				if w.replay != nil {
+					rp = w.replay()
+				}
+			}()
+			c.Or.Violate(c.PID+":no-termination", fmt.Sprintf("%s: %s did not return within 90 s", c.PID, w.what), rp)
+			c.Close()
+			fmt.Printf("%s: evaluations=%d violations=%d (stopped at a call that does not return)\n", c.PID, c.Or.Evaluations, len(c.Or.Violations))
+			os.Exit(0)
+		}
+	}()
+}
+
 // theCtx is the context of the running property (helpers without a Ctx parameter record the
 // in-flight input through it)
 var theCtx *Ctx
@@ -193,6 +235,7 @@ func runProp(args []string) bool {
 	os.Remove(filepath.Join(c.Out, "oracle.json"))
 	c.Landed()
 	theCtx = c
+	startWatchdog(c)
 	f(c)
 	c.Close()
 	fmt.Printf("%s: evaluations=%d distinct=%d violations=%d\n", c.PID, c.Or.Evaluations, c.Or.Distinct, len(c.Or.Violations))
